@@ -78,11 +78,17 @@ BENIGN = "X"
 
 ALPHA = ["&", "<", ">", '"', "'", "]", ";", "#", "a"]
 LONG = ("long<&>\"'" * 34)[:300]
+MAX255 = ("max255 &<>" * 26)[:255]
 CURATED = [
     "]]>", "&amp;", "&#x41;", "&lt;", "&#10;", "&a;", "a&b", "<a/>", "</a>", "<!--", "-->", "<?x?>",
     "<![CDATA[x]]>", "%", "%s", "%d", "%(x)s", "{", "}", "{}", "{0}", "{x}", "\\", "\n", "\t", "a\nb", "a\tb",
     " lead", "trail ", "a  b", " ", "\x85", " ", " ", "\U0001F600", "é", LONG,
     'a"b', "a'b", 'a" b="c', '"/><x a="', "'/><x a='", "[<100]0;0", 'xmlns:a="u"',
+    # strings that coincide with tokens the library itself gives a meaning to (enum member values / names, Python
+    # literals): they are still just data
+    "XLSX", "DOCX", "PPTX", "None", "True", "0", "General",
+    # the documented maximum length of a core property (boundary)
+    MAX255,
 ]
 
 
@@ -98,6 +104,8 @@ def strings():
 def label(m):
     if m == LONG:
         return "len300"
+    if m == MAX255:
+        return "len255"
     return m.encode("unicode_escape").decode("ascii")
 
 
